@@ -65,6 +65,15 @@ func sameOrderedEntries(a, b iface.IPFSLogOrderedEntries) (same bool) {
 	return a == b
 }
 
+// headsAndEntries returns the heads and a copy of the entries the log has at one
+// and the same instant.
+func (l *IPFSLog) headsAndEntries() (iface.IPFSLogOrderedEntries, iface.IPFSLogOrderedEntries) {
+	l.lock.RLock()
+	defer l.lock.RUnlock()
+
+	return l.heads, l.Entries.Copy()
+}
+
 func (l *IPFSLog) RawHeads() iface.IPFSLogOrderedEntries {
 	l.lock.RLock()
 	heads := l.heads
@@ -547,13 +556,20 @@ func (l *IPFSLog) Join(otherLog iface.IPFSLog, size int) (iface.IPFSLog, error) 
 	otherHeads := otherLog.RawHeads()
 	otherEntries := otherLog.GetEntries()
 
+	// A log of this package hands out both at one instant (other implementations of
+	// the interface are read as well as the interface allows, see below).
+	other, sameInstant := otherLog.(*IPFSLog)
+	if sameInstant {
+		otherHeads, otherEntries = other.headsAndEntries()
+	}
+
 	// A size-bounded merge into the other log is the one operation that makes its
 	// entries shrink: the heads read above may then be missing from the entries read
 	// after them. Every completed write installs a new heads map, so the pair is a
 	// state the other log really had if its heads are still the same object; if they
 	// are not, read the pair again (a few times at most: under a steady stream of
 	// writes the last pair is used as it is, which is what happened before).
-	for i := 0; i < 4; i++ {
+	for i := 0; i < 4 && !sameInstant; i++ {
 		heads := otherLog.RawHeads()
 		if sameOrderedEntries(heads, otherHeads) {
 			break
